@@ -4,6 +4,7 @@ Property theorems only (helper lemmas: Proofs/MarkerSem.lean, Proofs/MarkerAlgSo
 Proofs/MarkerShape.lean, Proofs/MarkerPrint.lean).
 -/
 import PoetryVerif.Proofs.MarkerAlgSoundOps
+import PoetryVerif.Proofs.MarkerShape
 
 set_option linter.unusedSimpArgs false
 set_option linter.unusedVariables false
@@ -48,5 +49,41 @@ example : ∃ r, LeafSpec (leafEval Ex.envAB) Ex.G0 ∧
     r = .multi [.leaf (.single Ex.sB), .leaf (.single Ex.sNA)] := by
   refine ⟨_, Ex.leafSpec0, ?_, rfl⟩
   marker_eval [Ex.sA, Ex.sNA, Ex.sB, Ex.i1, Ex.i2, Ex.i3, Ex.i4, Ex.i5, Ex.u1, Ex.u2, Ex.u3, Ex.u4, Ex.u5]
+
+/-- **The conjunctive normal form has the promised shape** — every fuel, every recursion stack, EVERY
+marker (no hypothesis on the leaves): the result of `cnf` is Any, Empty, a leaf, a disjunction of leaves,
+or a conjunction whose members are leaves or disjunctions of leaves (`M.isCnf`). -/
+theorem cnf_shape {m r : M} (h : cnf fuel stk m = .ok r) : r.isCnf = true := cnf_isCnf h
+
+example : ∃ r, cnf 60 [] (.union [.multi [.leaf (.single Ex.sA), .leaf (.single Ex.sB)], .leaf (.single Ex.sNA)]) = .ok r ∧
+    r = .union [.leaf (.single Ex.sB), .leaf (.single Ex.sNA)] ∧ r.isCnf = true := by
+  refine ⟨_, ?_, rfl, rfl⟩
+  marker_eval [Ex.sA, Ex.sNA, Ex.sB, Ex.i1, Ex.i2, Ex.i3, Ex.i4, Ex.i5, Ex.u1, Ex.u2, Ex.u3, Ex.u4, Ex.u5]
+
+/-- **The disjunctive normal form has the promised shape**: Any, Empty, a leaf, a conjunction of leaves,
+or a disjunction whose members are leaves or conjunctions of leaves (`M.isDnf`). -/
+theorem dnf_shape {m r : M} (h : dnf fuel stk m = .ok r) : r.isDnf = true := dnf_isDnf h
+
+example : ∃ r, dnf 60 [] (.multi [.union [.leaf (.single Ex.sA), .leaf (.single Ex.sB)], .leaf (.single Ex.sNA)]) = .ok r ∧
+    r = .multi [.leaf (.single Ex.sB), .leaf (.single Ex.sNA)] ∧ r.isDnf = true := by
+  refine ⟨_, ?_, rfl, rfl⟩
+  marker_eval [Ex.sA, Ex.sNA, Ex.sB, Ex.i1, Ex.i2, Ex.i3, Ex.i4, Ex.i5, Ex.u1, Ex.u2, Ex.u3, Ex.u4, Ex.u5]
+
+/-- a successful `_merge_single_markers` never returns a compound: Any, Empty or a single-marker-like -/
+theorem merge_result_shape {l1 l2 : Leaf} {isMulti : Bool} {r : M}
+    (h : mergeLeaves l1 l2 isMulti = .ok (some r)) : r.isLitE = true := mergeLeaves_shape l1 l2 isMulti r h
+
+/-- the pieces: `MarkerUnion.of` of clauses is a clause, `MultiMarker.of` of CNFs is a CNF (and dually) -/
+theorem unionOf_clause_shape {ms : List M} {r : M} (hm : ∀ x ∈ ms, x.isCIn = true)
+    (h : unionOf fuel stk ms = .ok r) : r.isCOut = true := unionOf_clause hm h
+
+theorem multiOf_cnf_shape {ms : List M} {r : M} (hm : ∀ x ∈ ms, x.isCnf = true)
+    (h : multiOf fuel stk ms = .ok r) : r.isCnf = true := multiOf_cnf mergeLeaves_shape hm h
+
+theorem multiOf_cube_shape {ms : List M} {r : M} (hm : ∀ x ∈ ms, x.isQIn = true)
+    (h : multiOf fuel stk ms = .ok r) : r.isQOut = true := multiOf_cube hm h
+
+theorem unionOf_dnf_shape {ms : List M} {r : M} (hm : ∀ x ∈ ms, x.isDnf = true)
+    (h : unionOf fuel stk ms = .ok r) : r.isDnf = true := unionOf_dnf mergeLeaves_shape hm h
 
 end Poetry.C13
